@@ -82,7 +82,7 @@ def build(rng, triple):
                 break
         ovs = [oo, o3]
     else:
-        nm = rng.randint(1, 3) if rng.random() < 0.85 else rng.randint(4, 7)     # a kit fixes no number of positions
+        nm = rng.randint(1, 3) if rng.random() < 0.85 else rng.choice([4, 5, 6, 7, 9, 12])     # a kit fixes no number of positions
         ovs = gen.distinct_overhangs(rng, k, nm + 1, forbid)
         if len(ovs) == nm + 1 and nm >= 2 and rng.random() < 0.3:
             # the vector closes on the reverse complement of an inner junction (legal: only start overhangs pair up)
